@@ -847,7 +847,8 @@ pub struct Collision {
 
 pub struct NameCollision;
 
-const COLLISION_LINES: [&str; 12] = ["1 lb to oz", "1 kg to oz", "1 stone to oz", "1 km to m", "5 cm to m", "1 mile to m", "2 km + 50 cm", "1 kg + 500 g", "1 gb to byte", "1 kb to bit", "1 lb to g", "12 inch to cm"];
+/// (the last six: a magnitude suffix glued to a literal stays a magnitude suffix when a family has a unit of that name)
+const COLLISION_LINES: [&str; 18] = ["1 lb to oz", "1 kg to oz", "1 stone to oz", "1 km to m", "5 cm to m", "1 mile to m", "2 km + 50 cm", "1 kg + 500 g", "1 gb to byte", "1 kb to bit", "1 lb to g", "12 inch to cm", "2T", "2T + 1", "3 * (1T - 2k)", "5k", "1M + 1k", "total = 5T / 2"];
 
 impl Prop for NameCollision {
     type Case = Collision;
@@ -980,7 +981,7 @@ pub fn two_patterns_table() -> Vec<TwoPatterns> {
 pub fn collision_table() -> Vec<Collision> {
     let mut out = vec![];
     for family in ["aardvark", "cooking", "clock", "kitchen", "zoo", "memory2"] {
-        for reused in ["oz", "m", "g", "byte", "cm", "lb"] {
+        for reused in ["oz", "m", "g", "byte", "cm", "lb", "T", "k", "M"] {
             for at in [1u8, 2] {
                 out.push(Collision { family: family.to_string(), reused: reused.to_string(), own: "zib".to_string(), at });
             }
